@@ -1,1 +1,193 @@
-From EpyV Require Import Model.Kernel.
+(* C05 - event functions are only invoked on live members of their locus.
+   Statements only; proofs are in Proofs/KernelMember.v and Proofs/KernelSync.v.
+   Everything is for every world type W, every table (arbitrary user programs), every oracle
+   and every fuel.  A record [OHandler prog t clock e (Some m)] is written by the model at the
+   instant a stochastic / per-element event function is entered; m is the outcome of the test
+   [e in locus] on the registered locus at that instant (Model/Kernel.v, fire_event). *)
+From Coq Require Import List ZArith QArith Bool Arith.
+From EpyV Require Import Model.Kernel Proofs.KernelMember Proofs.KernelSync.
+Import ListNotations.
+Open Scope Q_scope.
+
+(* ---------------------------------------------------------------- C05_member *)
+(* Gillespie dynamics: the element is drawn from the live locus, read after the posted events ran *)
+Theorem C05_member_stoch : forall W (tb : table W) pf fuel rs ls ds k t c e m,
+  In (OHandler k t c e (Some m)) (r_out (stoch_run tb pf fuel rs ls ds)) -> m = true.
+Proof.
+  intros W tb pf fuel rs ls ds k t c e m H.
+  assert (R := proj1 (Forall_forall _ _) (stoch_run_member tb pf fuel rs ls ds) _ H).
+  destruct R as [R|R]; [discriminate | inversion R; reflexivity].
+Qed.
+
+(* synchronous dynamics: because of the re-check in the loop over the tranche *)
+Theorem C05_member_sync : forall W (tb : table W) pf fuel rs ds k t c e m,
+  In (OHandler k t c e (Some m)) (r_out (sync_run tb pf fuel rs ds)) -> m = true.
+Proof.
+  intros W tb pf fuel rs ds k t c e m H.
+  exact (run_rec_member tb k t c e m (proj1 (Forall_forall _ _) (sync_run_records tb pf fuel rs ds) _ H)).
+Qed.
+
+(* the same fact where it is established: one Gillespie iteration is selection (stoch_select),
+   the posted events, then stoch_fire on the state s5 they left; a non-empty locus yields a call
+   on one of its current members and consumes exactly one rank *)
+Theorem C05_stoch_iteration : forall W (tb : table W) pf f t events s,
+  stoch_loop tb pf (S f) t events s =
+  if at_equil tb t s then (t, events, s)
+  else if Qeq_bool (sum_rates s (transitions tb)) 0 then
+    match next_pending_time s with
+    | (None, s') => (t, events, s')
+    | (Some et, s') => let '(n, s'') := run_pending tb pf et 0 s' in stoch_loop tb pf f et (events + n) s''
+    end
+  else
+    match stoch_select tb s with
+    | None => (t, events, set_stuck s)
+    | Some (x, dt, s3) =>
+        let nt := Qred (t + dt) in
+        let '(n, s4) := run_pending tb pf nt 0 s3 in
+        let '(ev', s6) := stoch_fire tb x nt (events + n) (set_clock nt s4) in
+        stoch_loop tb pf f nt ev' s6
+    end.
+Proof. exact (@stoch_loop_S). Qed.
+
+Theorem C05_stoch_fire_member : forall W (tb : table W) x nt ev (s5 : st W),
+  locus s5 (ev_locus (snd x)) <> [] ->
+  exists e, In e (locus s5 (ev_locus (snd x))) /\
+    stoch_fire tb x nt ev s5 = (S ev, fire_event tb x nt e (advance 0 0 1 s5)).
+Proof. exact (@stoch_fire_member). Qed.
+
+(* ---------------------------------------------------------------- C05_sync_skip *)
+(* a selected element that has left its locus when its turn comes: no record, no count, state
+   untouched, and the rest of the tranche proceeds *)
+Theorem C05_sync_skip : forall W (tb : table W) t x e evs nev (s : st W),
+  mem e (locus s (ev_locus (snd x))) = false ->
+  fire_tranche tb t ((x, e) :: evs) nev s = fire_tranche tb t evs nev s.
+Proof. exact (@fire_tranche_skip). Qed.
+
+Theorem C05_sync_fire : forall W (tb : table W) t x e evs nev (s : st W),
+  mem e (locus s (ev_locus (snd x))) = true ->
+  fire_tranche tb t ((x, e) :: evs) nev s = fire_tranche tb t evs (S nev) (fire_event tb x t e s).
+Proof. exact (@fire_tranche_fire). Qed.
+
+(* over a whole tranche: every record is of the tranche class (handlers have member = true,
+   time t, clock t) and the count grows by exactly the number of event functions entered *)
+Theorem C05_sync_tranche_count : forall W (tb : table W) t evs nev (s : st W),
+  clock s = t -> Forall (sel_ok tb) evs ->
+  exists l, out (snd (fire_tranche tb t evs nev s)) = l ++ out s /\
+            Forall (tranche_rec tb t) l /\
+            fst (fire_tranche tb t evs nev s) = (nev + nfired l)%nat.
+Proof. intros W tb t evs nev s Hc Hs. exact (proj2 (fire_tranche_spec tb t evs nev s Hc Hs)). Qed.
+
+(* ---------------------------------------------------------------- C05_zero_never *)
+(* synchronous: allEventsInTimestep only selects registered events of positive probability, on
+   members of the locus as it stood at that call *)
+Theorem C05_zero_never_sync_select : forall W (tb : table W) (s : st W) x e,
+  In (x, e) (fst (tranche tb s)) ->
+  In x (all_events tb) /\ 0 < ev_p (snd x) /\ mem e (locus s (ev_locus (snd x))) = true.
+Proof. exact (@tranche_member). Qed.
+
+(* ... so an event registered with probability zero never fires in a synchronous run *)
+Theorem C05_zero_never_sync : forall W (tb : table W) pf fuel rs ds pi j ev t e,
+  In (pi, j, ev) (all_events tb) -> ev_p ev == 0 ->
+  ~ In (OTap t pi (NEv pi j) e) (r_out (sync_run tb pf fuel rs ds)).
+Proof.
+  intros W tb pf fuel rs ds pi j ev t e Hin Hz H.
+  exact (run_rec_zero tb t pi j e ev Hin Hz (proj1 (Forall_forall _ _) (sync_run_records tb pf fuel rs ds) _ H)).
+Qed.
+
+(* Gillespie: the inverse-CDF scan.  With xs the running prefix sum, [select] returns the first
+   x whose interval [xs + sum before, xs + sum before + rate x) contains xc *)
+Theorem C05_select_interval : forall A (f : A -> Q) xc l xs cur, xs <= xc -> xc < xs + qsum f l ->
+  exists l1 x l2, l = l1 ++ x :: l2 /\ select f xc xs cur l = x /\
+    xs + qsum f l1 <= xc /\ xc < xs + qsum f l1 + f x /\
+    (forall l1' y l1'', l1 = l1' ++ y :: l1'' -> xs + qsum f l1' + f y <= xc).
+Proof. exact select_spec. Qed.
+
+(* hence, for 0 <= xc < total, the chosen transition has a positive rate *)
+Theorem C05_select_positive : forall A (f : A -> Q) xc l cur, 0 <= xc -> xc < qsum f l ->
+  In (select f xc 0 cur l) l /\ 0 < f (select f xc 0 cur l).
+Proof. exact select_pos. Qed.
+
+(* in the loop: with probabilities >= 0 and uniform variates in [0,1), whenever the total rate is
+   non-zero the chosen transition has positive probability (and positive rate: for a per-element
+   event its locus is non-empty at selection time) *)
+Theorem C05_zero_never_stoch_select : forall W (tb : table W) (s : st W) x dt s3,
+  nonneg_table tb -> Forall unit_rand (rands s) ->
+  Qeq_bool (sum_rates s (transitions tb)) 0 = false ->
+  stoch_select tb s = Some (x, dt, s3) ->
+  In x (all_events tb) /\ 0 < ev_p (snd x) /\ 0 < rate s x.
+Proof.
+  intros W tb s x dt s3 Hnn Hr Ha E.
+  destruct (stoch_select_pos tb s x dt s3 Hnn Hr Ha E) as (h1 & h2 & h3 & _). repeat split; assumption.
+Qed.
+
+(* ... so an event registered with probability zero never fires in a Gillespie run *)
+Theorem C05_zero_never_stoch : forall W (tb : table W) pf fuel rs ls ds pi j ev t e,
+  nonneg_table tb -> Forall unit_rand rs ->
+  In (pi, j, ev) (all_events tb) -> ev_p ev == 0 ->
+  ~ In (OTap t pi (NEv pi j) e) (r_out (stoch_run tb pf fuel rs ls ds)).
+Proof.
+  intros W tb pf fuel rs ls ds pi j ev t e Hnn Hr Hin Hz H.
+  exact (run_rec_zero tb t pi j e ev Hin Hz (proj1 (Forall_forall _ _) (stoch_run_positive tb Hnn pf fuel rs ls ds Hr) _ H)).
+Qed.
+
+(* ---------------------------------------------------------------- C05_empty_never *)
+(* synchronous: an event whose locus is empty (or whose probability is <= 0) when
+   allEventsInTimestep runs is passed over: nothing selected, no variate or rank consumed *)
+Theorem C05_empty_never_sync : forall W (tb : table W) x evs (s : st W),
+  locus s (ev_locus (snd x)) = [] ->
+  tranche_elem (x :: evs) s = tranche_elem evs s /\ tranche_fixed (x :: evs) s = tranche_fixed evs s /\
+  forall e, ~ In (x, e) (fst (tranche tb s)).
+Proof.
+  intros W tb x evs s H.
+  assert (Ha : active (loci s) x = false) by (apply inactive_iff; left; exact H).
+  split; [exact (tranche_elem_inactive x evs s Ha)|]. split; [exact (tranche_fixed_inactive x evs s Ha)|].
+  intros e. rewrite tranche_spec. exact (spec_tranche_inactive tb _ _ _ x e Ha).
+Qed.
+
+(* Gillespie: a chosen event whose locus is empty when its turn comes (after the posted events)
+   is not fired: no rank drawn, no record, event count unchanged *)
+Theorem C05_empty_never_stoch : forall W (tb : table W) x nt ev (s5 : st W),
+  locus s5 (ev_locus (snd x)) = [] -> stoch_fire tb x nt ev s5 = (ev, s5).
+Proof. exact (@stoch_fire_empty). Qed.
+
+(* ---------------------------------------------------------------- non-vacuity *)
+(* locus 0 = {1,2,3}, locus 1 empty.  Event (0,0): per element, p = 1, its handler removes
+   element 2 and the element itself.  Event (0,1): p = 0.  Event (0,2): fixed rate on the empty
+   locus.  A posted event at 1/2 observes the locus sizes. *)
+Definition ex_tb (maxt : Q) : table unit :=
+  {| t_maxtime := maxt; t_loci := [(0%nat, [EN 1; EN 2; EN 3]); (0%nat, [])];
+     t_procs := [{| p_events := [ {| ev_elem := true; ev_locus := 0; ev_p := 1; ev_prog := 0 |};
+                                  {| ev_elem := true; ev_locus := 0; ev_p := 0; ev_prog := 1 |};
+                                  {| ev_elem := false; ev_locus := 1; ev_p := 1; ev_prog := 1 |} ];
+                    p_setup := [APost (1#2) 2%nat] |}];
+     t_progs := [static [ALDiscard 0 (EN 2); ALDiscardSelf 0]; static []; static [AObserve]];
+     t_world := tt; t_equil := fun _ _ => false |}.
+
+(* synchronous, one step: 1, 2, 3 are all selected; firing on 1 removes 2, which is then skipped *)
+Example C05_example_sync :
+  let r := sync_run (ex_tb 2) 10 10 [1#2; 1#2; 1#2] [] in
+  r_out r = [OPosted 0 (1 # 2); OHandler 2 (1 # 2) (1 # 2) (EN 0) None;
+             OObserve (1 # 2) [3%nat; 0%nat]; OTap (1 # 2) 0 (NPost 2) (EN 0);
+             OHandler 0 1 1 (EN 1) (Some true); OTap 1 0 (NEv 0 0) (EN 1);
+             OHandler 0 1 1 (EN 3) (Some true); OTap 1 0 (NEv 0 0) (EN 3)] /\
+  r_events r = 3%nat /\ r_stuck r = false /\ nonneg_table (ex_tb 2).
+Proof.
+  cbv zeta. split; [vm_compute; reflexivity|]. split; [vm_compute; reflexivity|]. split; [vm_compute; reflexivity|].
+  intros x Hx. vm_compute in Hx. destruct Hx as [<-|[<-|[<-|[]]]]; vm_compute; discriminate.
+Qed.
+
+(* Gillespie, two iterations: the first fires (0,0) on the drawn member 2; in the second the scan
+   passes the zero-rate event (0,1) and lands on (0,2), whose locus is empty: nothing fires *)
+Example C05_example_stoch :
+  let r := stoch_run (ex_tb (7#12)) 10 10 [1#2; 1#4; 1#2; 3#4] [1; 1] [1%nat] in
+  r_out r = [OPosted 0 (1 # 2); OHandler 0 (1 # 4) (1 # 4) (EN 2) (Some true);
+             OTap (1 # 4) 0 (NEv 0 0) (EN 2);
+             OHandler 2 (1 # 2) (1 # 2) (EN 0) None;
+             OObserve (1 # 2) [2%nat; 0%nat]; OTap (1 # 2) 0 (NPost 2) (EN 0)] /\
+  r_time r = 7 # 12 /\ r_events r = 2%nat /\ r_stuck r = false /\
+  Forall unit_rand [1#2; 1#4; 1#2; 3#4].
+Proof.
+  cbv zeta. split; [vm_compute; reflexivity|]. split; [vm_compute; reflexivity|].
+  split; [vm_compute; reflexivity|]. split; [vm_compute; reflexivity|].
+  repeat constructor; vm_compute; discriminate.
+Qed.
